@@ -7,6 +7,8 @@ import (
 
 	multiproof "github.com/crate-crypto/go-ipa"
 	"github.com/crate-crypto/go-ipa/bandersnatch/fr"
+	"github.com/crate-crypto/go-ipa/common"
+	"github.com/crate-crypto/go-ipa/ipa"
 	"github.com/crate-crypto/go-ipa/zzverif/vsched"
 	"verif.local/engine/core"
 	"verif.local/engine/explore"
@@ -188,6 +190,82 @@ func c01Units(ctx *core.Ctx) []core.Unit {
 			c01Case(r, stmt{label: lb, zs: []int{3, 200}, polys: []namedPoly{a, b}}, 0, true)
 		}
 		r.Sample(map[string]interface{}{"statement": stmt{label: "vt", zs: []int{7, 8, 200}, polys: []namedPoly{a, a, a}, share: []int{1, 0, 1}, reprs: []int{reprFlip, reprProjFlip, reprNorm}}.String()})
+	}})
+	us = append(us, core.Unit{Name: "honest statements prove and verify after calls that ended with an error", Run: func(ctx *core.Ctx, r *core.Result) {
+		c := conf()
+		polys := polyAlphabet(ctx.Seed)
+		base := stmt{label: "vt", zs: []int{3, 200, 3}, polys: []namedPoly{polys[10], polys[12], polys[13]}}
+		// the failing calls: each is built from an honest proof / statement and must end with an error (or false)
+		failing := []struct {
+			name string
+			run  func()
+		}{
+			{"CheckMultiProof with one L point missing", func() {
+				p, is, _, _, _, _ := proveVerify(c, base)
+				if p == nil {
+					return
+				}
+				bad := &multiproof.MultiProof{D: p.D, IPA: ipa.IPAProof{L: p.IPA.L[:len(p.IPA.L)-1], R: p.IPA.R, A_scalar: p.IPA.A_scalar}}
+				multiproof.CheckMultiProof(common.NewTranscript("vt"), c, bad, is.Cs, is.ys, is.zs)
+			}},
+			{"CheckMultiProof with fewer claimed values than commitments", func() {
+				p, is, _, _, _, _ := proveVerify(c, base)
+				if p == nil {
+					return
+				}
+				multiproof.CheckMultiProof(common.NewTranscript("vt"), c, p, is.Cs, is.ys[:2], is.zs)
+			}},
+			{"CheckMultiProof of a false claim", func() {
+				p, is, _, _, _, _ := proveVerify(c, base)
+				if p == nil {
+					return
+				}
+				y := *is.ys[1]
+				one := fr.One()
+				y.Add(&y, &one)
+				ys := []*fr.Element{is.ys[0], &y, is.ys[2]}
+				multiproof.CheckMultiProof(common.NewTranscript("vt"), c, p, is.Cs, ys, is.zs)
+			}},
+			{"CreateMultiProof with a polynomial of 255 evaluations", func() {
+				is := base.build(c)
+				fs := [][]fr.Element{is.fs[0], is.fs[1][:255], is.fs[2]}
+				multiproof.CreateMultiProof(common.NewTranscript("vt"), c, is.Cs, fs, is.zs)
+			}},
+			{"CreateMultiProof with fewer points than commitments", func() {
+				is := base.build(c)
+				multiproof.CreateMultiProof(common.NewTranscript("vt"), c, is.Cs, is.fs, is.zs[:2])
+			}},
+		}
+		honest := []stmt{
+			{label: "vt", zs: []int{3, 200, 3}, polys: []namedPoly{polys[10], polys[12], polys[13]}},
+			{label: "vt", zs: []int{7}, polys: []namedPoly{polys[11]}},
+			{label: "w", zs: []int{0, 255}, polys: []namedPoly{polys[13], polys[9]}},
+		}
+		for fi, f := range failing {
+			for rep := 0; rep < 2; rep++ { // once, and twice in a row
+				for k := 0; k <= rep; k++ {
+					if !timed(r, "c01.panic", "CreateMultiProof / CheckMultiProof", f.name, f.run) {
+						return
+					}
+				}
+				for _, s := range honest {
+					in := fmt.Sprintf("%s, after %d x (%s)", s.String(), rep+1, f.name)
+					var ok bool
+					var perr, verr error
+					var same bool
+					if !timed(r, "c01.panic", "CreateMultiProof / CheckMultiProof", in, func() { _, _, ok, perr, verr, same = proveVerify(c, s) }) {
+						return
+					}
+					r.Evals++
+					r.Nontrivial++
+					if perr != nil || verr != nil || !ok || !same {
+						vio(r, "c01.verify", "CreateMultiProof / CheckMultiProof", in, "the honest proof is accepted (nothing survives a call that ended with an error)", fmt.Sprintf("ok=%v prover error=%v verifier error=%v transcripts agree=%v", ok, perr, verr, same))
+					}
+				}
+			}
+			_ = fi
+		}
+		r.Sample(map[string]interface{}{"failing_calls": len(failing), "honest_statements_after_each": len(honest)})
 	}})
 	us = append(us, core.Unit{Name: "CPU count and GOMAXPROCS that differ (quota-restricted process)", Run: func(ctx *core.Ctx, r *core.Result) {
 		if !vsched.Instrumented {
